@@ -27,6 +27,7 @@ _HOT = re.compile(rb"(?:<(?:date|id|version|type|name|val_cardinality|sec_cardin
                   rb"prop_cardinality|uncertainty|Document|sections|properties)\"?: *([^\n]+))")
 
 
+_UUID_RE = re.compile(rb"[0-9a-f]{8}-[0-9a-f]{4}-[0-9a-f]{4}-[0-9a-f]{4}-[0-9a-f]{12}")
 _CARD_ITEMS = re.compile(rb"_cardinality\"?: *\[?\n *(?:- )?([^\n,]+),?\n *(?:- )?([^\n,]+)\n")
 
 
@@ -158,8 +159,13 @@ def plan(rng, data, n_faults, kinds, has_old=True, aligned=None):
                 b -= 1
             if b - a >= 2 and data[a:a + 1] in (b'"', b"'") and data[b - 1:b] == data[a:a + 1]:
                 a, b = a + 1, b - 1
-            out.append({"kind": "subst", "off": a, "end": b,
-                        "text": rng.choice(SUBST_TEXTS)})
+            text = rng.choice(SUBST_TEXTS)
+            ids = _UUID_RE.findall(data)
+            if ids and _UUID_RE.fullmatch(data[a:b]) and rng.random() < 0.6:
+                # an id copied from elsewhere in the same file: the Document's (the first one) or
+                # any other
+                text = (ids[0] if rng.random() < 0.5 else rng.choice(ids)).decode("ascii")
+            out.append({"kind": "subst", "off": a, "end": b, "text": text})
         elif kind == "torn":
             out.append({"kind": "torn", "k": rng.randrange(max(1, len(data)))})
         elif kind == "stale":
